@@ -241,7 +241,7 @@ def build_recording(tier):
     plan = [("Pipeline_c04.cfg", None, 500 if thorough else 72, V0), ("Pipeline_c01sim.cfg", 500 if thorough else 30, None, V0), ("Pipeline_c01core.cfg", None, 10 ** 6 if thorough else 36, V0),
             ("Pipeline_sim.cfg", 500 if thorough else 30, None, V0), ("Pipeline_c06single.cfg", None, 10 ** 6 if thorough else 70, V0), ("Pipeline_c06grp.cfg", None, 10 ** 6 if thorough else 16, V0), ("Pipeline_c06sim.cfg", 700 if thorough else 20, None, V0),
             ("Pipeline_c07sim.cfg", 700 if thorough else 36, None, V0), ("Pipeline_c11rules.cfg", None, 10 ** 6, V0), ("Pipeline_c11rulesp.cfg", None, 10 ** 6, V0), ("Pipeline_c10core.cfg", None, 10 ** 6, A0), ("Pipeline_c10.cfg", None, 1000 if thorough else 24, A0), ("Pipeline_c10mask.cfg", None, 400 if thorough else 24, A0),
-            ("Pipeline_c10maskcore.cfg", None, 10 ** 6, A0), ("Pipeline_c10enf.cfg", None, 10 ** 6, A0),
+            ("Pipeline_c10maskcore.cfg", None, 10 ** 6, A0), ("Pipeline_c10enf.cfg", None, 10 ** 6, A0), ("Pipeline_c10twin.cfg", None, 10 ** 6, A0),
             ("Pipeline_c13sim.cfg", 300 if thorough else 24, None, V0 + A0),
             ("Pipeline_c14sim.cfg", 900 if thorough else 30, None, V0), ("Pipeline_c14types.cfg", None, 10 ** 6, V0), ("Pipeline_c14generics.cfg", None, 10 ** 6, V0)]
     if thorough:
